@@ -390,6 +390,16 @@ class Env:
         return self.ev.module_global(self.module, name)
 
     def assign(self, name, value):
+        if name in getattr(self, "nonlocals", ()):
+            e = self.parent
+            while e is not None:
+                if name in e.vars:
+                    e.vars[name] = value
+                    return
+                e = e.parent
+        if name in getattr(self, "globals_", ()):
+            self.ev.mod_cache[(self.module.name, name)] = value
+            return
         self.vars[name] = value
 
 
@@ -515,6 +525,10 @@ class Evaluator:
             return self.class_lookup(obj.obj, obj.obj.cinfo if isinstance(obj.obj, ObjVal) else obj.obj.cinfo, attr, node, start_after=obj.after_cls)
         if isinstance(obj, ClassVal):
             c, v = obj.cinfo.find_attr(attr)
+            if v is not None and not isinstance(v, FuncInfo) and not attr.startswith("_") and self._class_kind(obj.cinfo) == "enum":
+                return self.enum_member(obj.cinfo, attr)
+            if attr == "__members__" and self._class_kind(obj.cinfo) == "enum":
+                return {m.attrs["name"]: m for m in self.enum_members(obj.cinfo)}
             if isinstance(v, FuncInfo):
                 if v.is_classmethod:
                     return FuncVal(self, v, bound=obj, defcls=c)
@@ -596,8 +610,12 @@ class Evaluator:
         raise Undecided(f"attribute {attr} of {type(obj).__name__}")
 
     def default_getattr(self, obj, attr, node):
-        """object.__getattribute__ semantics: instance dict, then the class."""
+        """object.__getattribute__ semantics: data descriptors (properties) of the class, instance dict, then the class."""
         if attr in obj.attrs:
+            if obj.cinfo is not None:
+                m = obj.cinfo.find_method(attr)
+                if m is not None and m.is_property:
+                    return self.call(FuncVal(self, m, bound=obj), [], {})
             return obj.attrs[attr]
         if obj.cinfo is not None:
             self._in_getattribute.add(id(obj))
@@ -691,8 +709,109 @@ class Evaluator:
         return ExtVal(d)
 
     # ---- calls -----------------------------------------------------------
+    def apply_class_decorators(self, cv, node, env):
+        return cv  # dataclass & co. are recognised through ClassInfo.decorators when the class is instantiated
+
+    @staticmethod
+    def _class_kind(cinfo):
+        """'dataclass' | 'namedtuple' | 'enum' | None, looking through the project part of the MRO."""
+        for c in cinfo.mro():
+            if isinstance(c, str):
+                if c.split(".")[-1] in ("Enum", "IntEnum", "StrEnum", "Flag"):
+                    return "enum"
+                if c.split(".")[-1] == "NamedTuple":
+                    return "namedtuple"
+                continue
+            if any(d.split("(")[0].split(".")[-1] == "dataclass" for d in c.decorators):
+                return "dataclass"
+            for b in c.base_exprs:
+                nm = ast.unparse(b).split(".")[-1]
+                if nm in ("Enum", "IntEnum", "StrEnum", "Flag"):
+                    return "enum"
+                if nm == "NamedTuple":
+                    return "namedtuple"
+        return None
+
+    def _fields(self, cinfo):
+        out, seen = [], set()
+        for c in reversed([c for c in cinfo.mro() if not isinstance(c, str)]):
+            for name, dflt in c.fields:
+                if name in seen:
+                    out = [(n, d, cc) for n, d, cc in out if n != name]
+                seen.add(name)
+                out.append((name, dflt, c))
+        return out
+
+    def enum_member(self, cinfo, name):
+        key = (cinfo.fq, name)
+        cache = self.__dict__.setdefault("_enum_members", {})
+        if key not in cache:
+            c, node = cinfo.find_attr(name)
+            if node is None or not isinstance(node, ast.AST):
+                raise Raised("AttributeError", f"{cinfo.name} has no member {name}")
+            m = ObjVal(cinfo)
+            m.attrs["name"] = name
+            m.attrs["_name_"] = name
+            cache[key] = m  # before evaluating the value (auto() etc. do not refer back)
+            val = self.class_attr_value(c, name, node)
+            m.attrs["value"] = val
+            m.attrs["_value_"] = val
+        return cache[key]
+
+    def enum_members(self, cinfo):
+        names = []
+        for c in reversed([c for c in cinfo.mro() if not isinstance(c, str)]):
+            for st in c.node.body:
+                if isinstance(st, ast.Assign):
+                    for t in st.targets:
+                        if isinstance(t, ast.Name) and not t.id.startswith("_") and t.id not in names:
+                            names.append(t.id)
+        return [self.enum_member(cinfo, n) for n in names]
+
     def instantiate(self, cv, args, kwargs):
+        kind = self._class_kind(cv.cinfo)
+        if kind == "enum":
+            if len(args) != 1:
+                raise Raised("TypeError", "enum lookup takes one value")
+            for m in self.enum_members(cv.cinfo):
+                if _eq(self, m.attrs["value"], args[0]):
+                    return m
+            raise Raised("ValueError", f"{args[0]!r} is not a valid {cv.cinfo.name}")
         obj = ObjVal(cv.cinfo)
+        own_init = cv.cinfo.find_method("__init__")
+        if kind in ("dataclass", "namedtuple") and own_init is None:
+            fields = self._fields(cv.cinfo)
+            names = [f[0] for f in fields]
+            if len(args) > len(names):
+                raise Raised("TypeError", f"{cv.cinfo.name}() takes {len(names)} positional arguments but {len(args)} were given")
+            given = dict(zip(names, args))
+            for k, v in kwargs.items():
+                if k not in names:
+                    raise Raised("TypeError", f"{cv.cinfo.name}() got an unexpected keyword argument '{k}'")
+                if k in given:
+                    raise Raised("TypeError", f"{cv.cinfo.name}() got multiple values for argument '{k}'")
+                given[k] = v
+            for name, dflt, c in fields:
+                if name in given:
+                    obj.attrs[name] = given[name]
+                elif dflt is not None:
+                    v = self.class_attr_value(c, name, dflt)
+                    if isinstance(v, ObjVal) and v.label == "dataclass_field":
+                        if "default_factory" in v.attrs:
+                            v = self.call(v.attrs["default_factory"], [], {})
+                        elif "default" in v.attrs:
+                            v = v.attrs["default"]
+                        else:
+                            raise Raised("TypeError", f"{cv.cinfo.name}() missing required argument: '{name}'")
+                    obj.attrs[name] = v
+                else:
+                    raise Raised("TypeError", f"{cv.cinfo.name}() missing required argument: '{name}'")
+            if kind == "namedtuple":
+                obj.store["__list__"] = [obj.attrs[n] for n in names]
+            post = cv.cinfo.find_method("__post_init__")
+            if post is not None:
+                self.call(FuncVal(self, post, bound=obj), [], {})
+            return obj
         init = self.class_lookup(obj, cv.cinfo, "__init__", None, None)
         self.call(init, args, kwargs)
         return obj
@@ -952,35 +1071,42 @@ class Evaluator:
                 raise Raised(e.__name__, "", s)
             raise Raised("Exception", str(e), s)
         if isinstance(s, ast.Try):
+            # Python semantics: the finally block runs whatever happens in the body, the handler or the else block;
+            # an exception raised there propagates after the finally block (unless the finally block itself leaves)
+            pending = None
+            sig = None
             try:
-                sig = self.exec_block(s.body, env)
-            except Raised as r:
-                for h in s.handlers:
-                    names = []
-                    if h.type is None:
-                        names = None
-                    elif isinstance(h.type, ast.Tuple):
-                        names = [ast.unparse(x).split(".")[-1] for x in h.type.elts]
+                try:
+                    sig = self.exec_block(s.body, env)
+                except Raised as r:
+                    for h in s.handlers:
+                        names = []
+                        if h.type is None:
+                            names = None
+                        elif isinstance(h.type, ast.Tuple):
+                            names = [ast.unparse(x).split(".")[-1] for x in h.type.elts]
+                        else:
+                            names = [ast.unparse(h.type).split(".")[-1]]
+                        if names is None or any(_exc_matches(r.etype, nm) for nm in names):
+                            if h.name:
+                                env.assign(h.name, _ExcVal(r.etype, r.msg))
+                            sig = self.exec_block(h.body, env)
+                            break
                     else:
-                        names = [ast.unparse(h.type).split(".")[-1]]
-                    if names is None or r.etype in names or "Exception" in names or (
-                        r.etype == "ModuleNotFoundError" and "ImportError" in names
-                    ):
-                        if h.name:
-                            env.assign(h.name, _ExcVal(r.etype, r.msg))
-                        sig = self.exec_block(h.body, env)
-                        break
+                        raise
                 else:
-                    raise
-            else:
-                if s.orelse:
-                    sig2 = self.exec_block(s.orelse, env)
-                    if sig2 is not None:
-                        sig = sig2
+                    if s.orelse:
+                        sig2 = self.exec_block(s.orelse, env)
+                        if sig2 is not None:
+                            sig = sig2
+            except (Raised, Undecided) as exc:
+                pending = exc
             if s.finalbody:
                 sig3 = self.exec_block(s.finalbody, env)
                 if sig3 is not None:
                     return sig3
+            if pending is not None:
+                raise pending
             return sig
         if isinstance(s, ast.Assert):
             if not self.truth(self.eval(s.test, env), s.test):
@@ -1017,7 +1143,33 @@ class Evaluator:
                     env.assign(a.asname or a.name, mv)
             return None
         if isinstance(s, ast.Global):
+            env.globals_ = set(getattr(env, "globals_", ())) | set(s.names)
             return None
+        if isinstance(s, ast.Nonlocal):
+            env.nonlocals = set(getattr(env, "nonlocals", ())) | set(s.names)
+            return None
+        if isinstance(s, ast.ClassDef):
+            # a class defined inside a function: its bases are whatever the base expressions evaluate to here
+            ci = getattr(s, "_class", None)
+            if ci is None:
+                raise Undecided("class statement without model")
+            bases = []
+            for b in s.bases:
+                bv = self.eval(b, env)
+                if isinstance(bv, ClassVal):
+                    bases.append(bv.cinfo)
+                elif isinstance(bv, _TypeProxy):
+                    bases.append(bv.pytype.__name__)
+                else:
+                    bases.append(ast.unparse(b))
+            ci.bases = bases
+            ci._mro = None
+            cv = ClassVal(self, ci)
+            cv.closure = env
+            env.assign(s.name, self.apply_class_decorators(cv, s, env))
+            return None
+        if isinstance(s, ast.Match):
+            return self.exec_match(s, env)
         if isinstance(s, ast.With):
             exits = []
             for item in s.items:
@@ -1046,6 +1198,18 @@ class Evaluator:
             env.assign(t.id, v)
         elif isinstance(t, (ast.Tuple, ast.List)):
             items = list(self.iterate(v))
+            stars = [i for i, e in enumerate(t.elts) if isinstance(e, ast.Starred)]
+            if stars:
+                i = stars[0]
+                n_after = len(t.elts) - i - 1
+                if len(items) < len(t.elts) - 1:
+                    raise Raised("ValueError", "not enough values to unpack", t)
+                for e, x in zip(t.elts[:i], items[:i]):
+                    self.assign(e, x, env)
+                self.assign(t.elts[i].value, items[i:len(items) - n_after], env)
+                for e, x in zip(t.elts[i + 1:], items[len(items) - n_after:]):
+                    self.assign(e, x, env)
+                return
             if len(items) != len(t.elts):
                 raise Raised("ValueError", "unpack length mismatch", t)
             for e, x in zip(t.elts, items):
@@ -1053,6 +1217,18 @@ class Evaluator:
         elif isinstance(t, ast.Attribute):
             o = self.eval(t.value, env)
             if isinstance(o, ObjVal):
+                if o.cinfo is not None:
+                    setter = None
+                    for c in o.cinfo.mro():
+                        if not isinstance(c, str) and t.attr in c.setters:
+                            setter = c.setters[t.attr]
+                            break
+                    if setter is not None:
+                        self.call(FuncVal(self, setter, bound=o), [v], {})
+                        return
+                    m = o.cinfo.find_method(t.attr)
+                    if m is not None and m.is_property:
+                        raise Raised("AttributeError", f"property '{t.attr}' of '{o.cinfo.name}' object has no setter", t)
                 o.attrs[t.attr] = v
             elif isinstance(o, OpaqueObj):
                 pass
@@ -1085,22 +1261,92 @@ class Evaluator:
                         if self.watch_abort:
                             raise WatchedWrite(*hit)
                 o[k] = v
-            elif isinstance(o, Arr) and isinstance(k, int):
-                o.data[k] = v
-            elif isinstance(o, Arr) and isinstance(k, tuple) and all(isinstance(i, int) for i in k):
-                d = o.data
-                try:
-                    for i in k[:-1]:
-                        d = d[i]
-                    d[k[-1]] = v
-                except (IndexError, TypeError):
-                    raise Raised("IndexError", f"index {k} out of bounds", t)
+            elif isinstance(o, Arr):
+                _arr_store(o, k, v, t)
             else:
                 raise Undecided(f"subscript store on {type(o).__name__}")
         elif isinstance(t, ast.Starred):
             raise Undecided("starred assignment")
         else:
             raise Undecided(f"assignment target {type(t).__name__}")
+
+    # ---- match statement ------------------------------------------------------
+    def exec_match(self, s, env):
+        subject = self.eval(s.subject, env)
+        for case in s.cases:
+            binds = {}
+            if self._match(case.pattern, subject, binds, env):
+                for k, v in binds.items():
+                    env.assign(k, v)
+                if case.guard is not None and not self.truth(self.eval(case.guard, env), case.guard):
+                    continue
+                return self.exec_block(case.body, env)
+        return None
+
+    def _match(self, pat, v, binds, env):
+        if isinstance(pat, ast.MatchValue):
+            return _eq(self, v, self.eval(pat.value, env))
+        if isinstance(pat, ast.MatchSingleton):
+            return v is pat.value
+        if isinstance(pat, ast.MatchAs):
+            if pat.pattern is not None and not self._match(pat.pattern, v, binds, env):
+                return False
+            if pat.name is not None:
+                binds[pat.name] = v
+            return True
+        if isinstance(pat, ast.MatchOr):
+            for p_ in pat.patterns:
+                b2 = {}
+                if self._match(p_, v, b2, env):
+                    binds.update(b2)
+                    return True
+            return False
+        if isinstance(pat, ast.MatchSequence):
+            if isinstance(v, (str, dict)) or not isinstance(v, (list, tuple, Arr)):
+                return False
+            items = list(self.iterate(v))
+            stars = [i for i, p_ in enumerate(pat.patterns) if isinstance(p_, ast.MatchStar)]
+            if not stars:
+                if len(items) != len(pat.patterns):
+                    return False
+                return all(self._match(p_, x, binds, env) for p_, x in zip(pat.patterns, items))
+            i = stars[0]
+            before, after = pat.patterns[:i], pat.patterns[i + 1:]
+            if len(items) < len(before) + len(after):
+                return False
+            ok = all(self._match(p_, x, binds, env) for p_, x in zip(before, items))
+            ok = ok and all(self._match(p_, x, binds, env) for p_, x in zip(after, items[len(items) - len(after):]))
+            if ok and pat.patterns[i].name:
+                binds[pat.patterns[i].name] = items[len(before):len(items) - len(after)]
+            return ok
+        if isinstance(pat, ast.MatchMapping):
+            if isinstance(v, ObjVal):
+                v = v.store
+            if not isinstance(v, dict):
+                return False
+            for k, p_ in zip(pat.keys, pat.patterns):
+                kk = self.eval(k, env)
+                if kk not in v or not self._match(p_, v[kk], binds, env):
+                    return False
+            if pat.rest:
+                ks = [self.eval(k, env) for k in pat.keys]
+                binds[pat.rest] = {k: x for k, x in v.items() if k not in ks}
+            return True
+        if isinstance(pat, ast.MatchClass):
+            cls = self.eval(pat.cls, env)
+            if not _b_isinstance(v, cls):
+                return False
+            if pat.patterns:
+                raise Undecided("positional class pattern")
+            for name, p_ in zip(pat.kwd_attrs, pat.kwd_patterns):
+                try:
+                    av = self.getattr(v, name, None)
+                except Raised:
+                    return False
+                if not self._match(p_, av, binds, env):
+                    return False
+            return True
+        raise Undecided(f"match pattern {type(pat).__name__}")
 
     # ---- expressions -------------------------------------------------------
     def truth(self, v, node=None):
@@ -1129,6 +1375,10 @@ class Evaluator:
         if isinstance(v, (type({}.items()), type({}.keys()), type({}.values()), enumerate, zip, filter, map)):
             return list(v)
         if isinstance(v, ObjVal):
+            if v.cinfo is not None:
+                m = v.cinfo.find_method("__iter__")
+                if m is not None:
+                    return list(self.iterate(self.call(FuncVal(self, m, bound=v), [], {})))
             if "__list__" in v.store:
                 return v.store["__list__"]
             return list(v.store)
@@ -1182,6 +1432,11 @@ class Evaluator:
             else:
                 d[_key(self.eval(k, env))] = self.eval(v, env)
         return d
+
+    def e_NamedExpr(self, n, env):
+        v = self.eval(n.value, env)
+        env.assign(n.target.id, v)
+        return v
 
     def e_JoinedStr(self, n, env):
         parts = []
@@ -1280,6 +1535,8 @@ class Evaluator:
                 return (a if is_inf(a) else b)
             return num_norm(_r(a) + _r(b)) if _sym(a, b) else _pyop(a, b, lambda x, y: x + y)
         if isinstance(op, ast.Sub):
+            if isinstance(a, (set, frozenset)) and isinstance(b, (set, frozenset)):
+                return a - b
             return num_norm(_r(a) - _r(b)) if _sym(a, b) else _pyop(a, b, lambda x, y: x - y)
         if isinstance(op, ast.Mult):
             if isinstance(a, (str, list, tuple)) and isinstance(b, int):
@@ -1313,7 +1570,15 @@ class Evaluator:
             return num_norm(a**b)
         if isinstance(op, ast.Mod):
             if isinstance(a, str):
-                raise Undecided("string % formatting")
+                vals = b if isinstance(b, tuple) else (b,)
+                if any(isinstance(num_norm(v), Rat) for v in vals):
+                    # a message with symbolic content: keep the canonical text
+                    vals = tuple(A.canon(num_norm(v)) if isinstance(num_norm(v), Rat) else v for v in vals)
+                    a = a.replace("%d", "%s").replace("%f", "%s").replace("%g", "%s")
+                try:
+                    return a % tuple(float(v) if isinstance(v, Fraction) else v for v in vals)
+                except (TypeError, ValueError) as e:
+                    raise Raised(type(e).__name__, str(e))
             if _sym(a, b):
                 raise Undecided("symbolic modulo")
             return a % b
@@ -1323,6 +1588,13 @@ class Evaluator:
             return a // b
         if isinstance(op, ast.MatMult):
             return _matmul(self, a, b)
+        if isinstance(op, (ast.BitOr, ast.BitAnd, ast.BitXor)):
+            if isinstance(a, (dict, set, frozenset, bool, int)) and isinstance(b, (dict, set, frozenset, bool, int)) and not isinstance(a, Rat):
+                try:
+                    return {ast.BitOr: lambda x, y: x | y, ast.BitAnd: lambda x, y: x & y, ast.BitXor: lambda x, y: x ^ y}[type(op)](a, b)
+                except TypeError as e:
+                    raise Raised("TypeError", str(e))
+            raise Undecided(f"binary operator {type(op).__name__} on {type(a).__name__}")
         raise Undecided(f"binary operator {type(op).__name__}")
 
     def e_BoolOp(self, n, env):
@@ -1357,7 +1629,11 @@ class Evaluator:
             return not (a is b)
         if isinstance(op, (ast.In, ast.NotIn)):
             if isinstance(b, ObjVal):
-                b = b.store
+                m = b.cinfo.find_method("__contains__") if b.cinfo is not None else None
+                if m is not None:
+                    r = self.truth(self.call(FuncVal(self, m, bound=b), [a], {}))
+                    return r if isinstance(op, ast.In) else not r
+                b = b.store["__list__"] if "__list__" in b.store else b.store
             if isinstance(a, Rat):
                 raise Undecided("symbolic membership test")
             r = a in b
@@ -1445,6 +1721,11 @@ class Evaluator:
                 getitem = o.cinfo.find_method("__getitem__")
             if getitem is not None:
                 return self.call(FuncVal(self, getitem, bound=o), [k], {})
+            if "__list__" in o.store and isinstance(k, (int, slice)):
+                try:
+                    return o.store["__list__"][k]
+                except IndexError:
+                    raise Raised("IndexError", "tuple index out of range", n)
             if k in o.store:
                 return o.store[k]
             raise Raised("KeyError", repr(k), n)
@@ -1603,6 +1884,32 @@ def _is_generator(fn_node):
     return found
 
 
+_EXC_PARENTS = {
+    "ModuleNotFoundError": "ImportError", "KeyError": "LookupError", "IndexError": "LookupError", "FileNotFoundError": "OSError",
+    "ZeroDivisionError": "ArithmeticError", "OverflowError": "ArithmeticError", "NotImplementedError": "RuntimeError", "RecursionError": "RuntimeError",
+    "UnicodeDecodeError": "ValueError", "ConstructorError": "YAMLError", "RepresenterError": "YAMLError",
+}
+
+
+def _exc_matches(etype, handler_name):
+    """Does an exception of type `etype` reach `except handler_name`? (builtin hierarchy)"""
+    if handler_name in ("Exception", "BaseException"):
+        return True
+    t = etype
+    while t is not None:
+        if t == handler_name:
+            return True
+        t = _EXC_PARENTS.get(t)
+    return False
+
+
+def _b_issubclass(c, k):
+    ks = k if isinstance(k, tuple) else (k,)
+    if isinstance(c, ClassVal):
+        return any(isinstance(x, ClassVal) and any(m is x.cinfo for m in c.cinfo.mro()) for x in ks)
+    raise Undecided("issubclass on a non-project class")
+
+
 def _raise_undecided(msg):
     raise Undecided(msg)
 
@@ -1755,6 +2062,86 @@ def _arr_index(o, k):
     return Arr(res) if isinstance(res, list) else res
 
 
+def _depth(x):
+    n = 0
+    while isinstance(x, list):
+        n += 1
+        if not x:
+            break
+        x = x[0]
+    return n
+
+
+def _arr_store(o, k, v, node=None):
+    """o[k] = v with integer / slice / Ellipsis-free indices and numpy broadcasting of v."""
+    ks = k if isinstance(k, tuple) else (k,)
+    if any(isinstance(i, Rat) for i in ks):
+        raise Undecided("symbolic array index in a store")
+    if any(not isinstance(i, (int, slice)) or isinstance(i, bool) for i in ks):
+        raise Undecided(f"array store with index {ks!r}")
+    val = _deepcopy(None, v.data) if isinstance(v, Arr) else (list(v) if isinstance(v, (list, tuple)) else v)
+
+    def fill(d, val):
+        for j in range(len(d)):
+            if isinstance(val, list):
+                if _depth(val) < _depth(d):
+                    sub = val
+                elif len(val) == len(d):
+                    sub = val[j]
+                elif len(val) == 1:
+                    sub = val[0]
+                else:
+                    raise Raised("ValueError", f"could not broadcast input array of length {len(val)} into shape ({len(d)},)", node)
+            else:
+                sub = val
+            if isinstance(d[j], list):
+                fill(d[j], sub)
+            elif isinstance(sub, list):
+                raise Raised("ValueError", "setting an array element with a sequence", node)
+            else:
+                d[j] = sub
+
+    def put(d, i, rest, val):
+        try:
+            cur = d[i]
+        except IndexError:
+            raise Raised("IndexError", f"index {i} is out of bounds for axis with size {len(d)}", node)
+        if rest:
+            if not isinstance(cur, list):
+                raise Raised("IndexError", "too many indices for array", node)
+            rec(cur, rest, val)
+        elif isinstance(cur, list):
+            fill(cur, val)
+        elif isinstance(val, list):
+            if len(val) == 1 and not isinstance(val[0], list):
+                d[i] = val[0]
+            else:
+                raise Raised("ValueError", "setting an array element with a sequence", node)
+        else:
+            d[i] = val
+
+    def rec(d, ks, val):
+        k0, rest = ks[0], ks[1:]
+        if isinstance(k0, slice):
+            idxs = list(range(len(d)))[k0]
+            for n_, i in enumerate(idxs):
+                block_depth = _depth(d[i]) - sum(1 for r in rest if isinstance(r, int))
+                if isinstance(val, list) and _depth(val) > block_depth:
+                    if len(val) == len(idxs):
+                        sub = val[n_]
+                    elif len(val) == 1:
+                        sub = val[0]
+                    else:
+                        raise Raised("ValueError", f"could not broadcast input array of length {len(val)} into shape ({len(idxs)},)", node)
+                else:
+                    sub = val
+                put(d, i, rest, sub)
+        else:
+            put(d, k0, rest, val)
+
+    rec(o.data, ks, val)
+
+
 def _canon_ext(d):
     parts = d.split(".")
     if parts[0] == "np":
@@ -1836,14 +2223,27 @@ def _b_sum(it, start=0):
 
 
 def _b_minmax(pick):
-    def f(*args, **kw):
-        vals = list(args[0]) if len(args) == 1 else list(args)
+    def f(*args, key=None, default=_MISSING_MM):
+        vals = list(_DUMMY.iterate(args[0])) if len(args) == 1 else list(args)
+        if not vals:
+            if default is not _MISSING_MM:
+                return default
+            raise Raised("ValueError", f"{pick.__name__}() arg is an empty sequence")
+        if key is not None:
+            keyed = [(num_norm(key(v)), v) for v in vals]
+            if any(isinstance(k, Rat) for k, _ in keyed):
+                raise Undecided(f"{pick.__name__}() with a key over symbolic values")
+            best = pick(k for k, _ in keyed)
+            return next(v for k, v in keyed if k == best)
         vals = [num_norm(v) for v in vals]
         if any(isinstance(v, Rat) for v in vals):
             return A.opaque(pick.__name__, tuple(vals))
         return pick(vals)
 
     return f
+
+
+_MISSING_MM = object()
 
 
 def _b_abs(v):
@@ -1946,12 +2346,20 @@ _BUILTINS = {
     "float": _b_float,
     "bool": lambda v=False: _DUMMY.truth(v),
     "isinstance": _b_isinstance,
-    "filter": lambda f, it: [x for x in _DUMMY.iterate(it) if _DUMMY.truth(f(x))],
-    "map": lambda f, it: [f(x) for x in _DUMMY.iterate(it)],
+    "filter": lambda f, it: [x for x in _DUMMY.iterate(it) if _DUMMY.truth(f(x) if f is not None else x)],
+    "map": lambda f, *its: [f(*xs) for xs in zip(*[_DUMMY.iterate(i) for i in its])],
     "any": lambda it: any(_DUMMY.truth(x) for x in _DUMMY.iterate(it)),
     "all": lambda it: all(_DUMMY.truth(x) for x in _DUMMY.iterate(it)),
     "print": lambda *a, **k: None,
-    "round": lambda v, nd=None: A.opaque("round", (num_norm(v), nd)) if isinstance(num_norm(v), (Rat, Fraction)) else round(v, nd) if nd is not None else round(v),
+    "round": lambda v, nd=None: A.opaque("round", (num_norm(v), nd)) if isinstance(num_norm(v), Rat) else (round(float(num_norm(v)), nd) if nd is not None else round(float(num_norm(v)))),
+    "ord": ord,
+    "chr": chr,
+    "hash": lambda v: hash(v) if not isinstance(v, (ObjVal, Rat)) else _raise_undecided("hash of a folded object"),
+    "id": lambda v: id(v),
+    "issubclass": lambda c, k: _b_issubclass(c, k),
+    "vars": lambda o: dict(o.attrs) if isinstance(o, ObjVal) else _raise_undecided("vars()"),
+    "slice": slice,
+    "bytes": bytes,
     "repr": repr,
     "type": lambda o: ClassVal(_DUMMY, o.cinfo) if isinstance(o, ObjVal) and o.cinfo else type(o),
     "object": None,  # replaced below by _ObjectType()
@@ -2111,26 +2519,232 @@ def _f_sign(x):
 
 
 def _np_zeros(ev, shape, **kw):
-    if isinstance(shape, int):
-        return Arr([0] * shape)
-    shape = tuple(shape)
+    return _np_shape_fill(0)(ev, shape)
+
+
+def _as_arr(ev, x):
+    if isinstance(x, Arr):
+        return x
+    if isinstance(x, (list, tuple)):
+        return _np_array(ev, list(x))
+    return None
+
+
+def _reduce_axis(ev, x, axis, fn):
+    """Reduce an (up to rank-3) array along `axis` (None = all) with fn(list of scalars) -> scalar."""
+    a = _as_arr(ev, x)
+    if a is None:
+        return fn([x])
+    if axis is None:
+        return fn(a.flat())
+    shape = a.shape
+    axis = num_norm(axis)
+    if not isinstance(axis, int):
+        raise Undecided("reduction over several axes")
+    if axis < 0:
+        axis += len(shape)
     if len(shape) == 1:
-        return Arr([0] * shape[0])
+        return fn(list(a.data))
     if len(shape) == 2:
-        return Arr([[0] * shape[1] for _ in range(shape[0])])
-    raise Undecided("zeros rank")
+        if axis == 0:
+            return Arr([fn([a.data[i][j] for i in range(shape[0])]) for j in range(shape[1])])
+        return Arr([fn(list(row)) for row in a.data])
+    if len(shape) == 3:
+        d = a.data
+        if axis == 0:
+            return Arr([[fn([d[i][j][k] for i in range(shape[0])]) for k in range(shape[2])] for j in range(shape[1])])
+        if axis == 1:
+            return Arr([[fn([d[i][j][k] for j in range(shape[1])]) for k in range(shape[2])] for i in range(shape[0])])
+        return Arr([[fn(list(d[i][j])) for j in range(shape[1])] for i in range(shape[0])])
+    raise Undecided("reduction of an array of rank > 3")
 
 
-def _np_sum(ev, x, **kw):
+def _np_sum(ev, x, axis=None, **kw):
+    if kw.get("keepdims"):
+        raise Undecided("np.sum keepdims")
+    return _reduce_axis(ev, x, axis, _b_sum)
+
+
+def _prod_list(ev):
+    def f(items):
+        acc = 1
+        for v in items:
+            acc = ev.binop(ast.Mult(), acc, v)
+        return acc
+
+    return f
+
+
+def _np_concat(ev, seq, axis=0, **kw):
+    arrs = [_as_arr(ev, x) for x in ev.iterate(seq)]
+    if any(a is None for a in arrs):
+        raise Undecided("concatenate of scalars")
+    if num_norm(axis) == 0:
+        out = []
+        for a in arrs:
+            out.extend(_deepcopy(ev, a.data))
+        return Arr(out)
+    if num_norm(axis) in (1, -1) and all(len(a.shape) == 2 for a in arrs):
+        return Arr([sum((list(a.data[i]) for a in arrs), []) for i in range(len(arrs[0].data))])
+    raise Undecided("concatenate along this axis")
+
+
+def _np_stack(ev, seq, axis=0, **kw):
+    arrs = [_as_arr(ev, x) for x in ev.iterate(seq)]
+    if num_norm(axis) != 0 or any(a is None for a in arrs):
+        raise Undecided("np.stack along a non-leading axis")
+    return Arr([_deepcopy(ev, a.data) for a in arrs])
+
+
+def _np_outer(ev, a, b):
+    a, b = _as_arr(ev, a), _as_arr(ev, b)
+    return Arr([[ev.binop(ast.Mult(), x, y) for y in b.flat()] for x in a.flat()])
+
+
+def _np_where(ev, cond, a=None, b=None):
+    if a is None:
+        raise Undecided("np.where with one argument")
+    c = _as_arr(ev, cond)
+    if c is None:
+        return a if ev.truth(cond) else b
+
+    def pick(i, cv):
+        av = a.flat()[i] if isinstance(a, Arr) else a
+        bv = b.flat()[i] if isinstance(b, Arr) else b
+        return av if ev.truth(cv) else bv
+
+    if len(c.shape) != 1:
+        raise Undecided("np.where on a matrix condition")
+    return Arr([pick(i, cv) for i, cv in enumerate(c.data)])
+
+
+def _np_linspace(ev, a, b, num=50, endpoint=True, **kw):
+    a, b, num = num_norm(a), num_norm(b), num_norm(num)
+    if not isinstance(num, int):
+        raise Undecided("linspace with a symbolic length")
+    if num == 1:
+        return Arr([a])
+    div = (num - 1) if endpoint else num
+    step = ev.binop(ast.Div(), ev.binop(ast.Sub(), b, a), div)
+    return Arr([ev.binop(ast.Add(), a, ev.binop(ast.Mult(), step, i)) for i in range(num)])
+
+
+def _np_arange(ev, *a, **kw):
+    a = [num_norm(x) for x in a]
+    if any(isinstance(x, Rat) for x in a):
+        raise Undecided("arange with symbolic bounds")
+    if all(isinstance(x, int) for x in a):
+        return Arr(list(range(*a)))
+    start, stop, step = (0, a[0], 1) if len(a) == 1 else (a[0], a[1], a[2] if len(a) > 2 else 1)
+    out, x = [], Fraction(start)
+    while (x < stop) if step > 0 else (x > stop):
+        out.append(num_norm(x))
+        x += Fraction(step)
+    return Arr(out)
+
+
+def _np_shape_fill(value):
+    def f(ev, shape, *a, **kw):
+        v = value if value is not None else (a[0] if a else kw.get("fill_value", 0))
+        shape = num_norm(shape)
+        dims = (shape,) if isinstance(shape, int) else tuple(num_norm(x) for x in ev.iterate(shape))
+
+        def mk(ds):
+            return [mk(ds[1:]) for _ in range(ds[0])] if len(ds) > 1 else [v] * ds[0]
+
+        return Arr(mk(dims)) if dims else v
+
+    return f
+
+
+def _np_einsum(ev, spec, *ops):
+    spec = spec.replace(" ", "")
+    ins, out = spec.split("->") if "->" in spec else (spec, None)
+    ins = ins.split(",")
+    arrs = [_as_arr(ev, o) for o in ops]
+    if out is None or any(a is None for a in arrs) or len(ins) != len(arrs):
+        raise Undecided("einsum form")
+    sizes = {}
+    for sub, a in zip(ins, arrs):
+        if len(sub) != len(a.shape):
+            raise Raised("ValueError", "einsum subscripts do not match the operand rank")
+        for ch, n_ in zip(sub, a.shape):
+            if sizes.setdefault(ch, n_) != n_:
+                raise Raised("ValueError", "einsum dimension mismatch")
+    summed = [ch for ch in sizes if ch not in out]
+    import itertools as it_
+
+    def elem(a, sub, idx):
+        d = a.data
+        for ch in sub:
+            d = d[idx[ch]]
+        return d
+
+    def build(prefix, rest):
+        if not rest:
+            tot = 0
+            for combo in it_.product(*[range(sizes[ch]) for ch in summed]):
+                idx = dict(prefix)
+                idx.update(zip(summed, combo))
+                term = 1
+                for a, sub in zip(arrs, ins):
+                    term = ev.binop(ast.Mult(), term, elem(a, sub, idx))
+                tot = ev.binop(ast.Add(), tot, term)
+            return tot
+        ch = rest[0]
+        return [build(prefix + [(ch, i)], rest[1:]) for i in range(sizes[ch])]
+
+    res = build([], list(out))
+    return Arr(res) if isinstance(res, list) else res
+
+
+def _np_unique(ev, x, **kw):
     if kw:
-        raise Undecided("np.sum with axis")
-    items = x.flat() if isinstance(x, Arr) else list(ev.iterate(x))
-    return _b_sum(items)
+        raise Undecided("np.unique with options")
+    items = [num_norm(v) for v in (_as_arr(ev, x).flat() if _as_arr(ev, x) is not None else [x])]
+    if any(isinstance(v, Rat) for v in items):
+        raise Undecided("np.unique of symbolic values (the order depends on the values)")
+    return Arr(sorted(set(items)))
 
 
-def _np_mean(ev, x, **kw):
-    items = x.flat() if isinstance(x, Arr) else list(ev.iterate(x))
-    return ev.binop(ast.Div(), _b_sum(items), len(items))
+def _np_minmax2(which):
+    def f(ev, a, b):
+        def one(x, y):
+            x, y = num_norm(x), num_norm(y)
+            if isinstance(x, Rat) or isinstance(y, Rat):
+                return A.opaque(which, (x, y))
+            return min(x, y) if which == "min" else max(x, y)
+
+        aa, bb = _as_arr(ev, a), _as_arr(ev, b)
+        if aa is None and bb is None:
+            return one(a, b)
+        if aa is not None and bb is not None:
+            return aa._zip(bb, one)
+        return (aa or bb)._map((lambda x: one(x, b)) if aa is not None else (lambda y: one(a, y)))
+
+    return f
+
+
+def _np_cumsum(ev, x, **kw):
+    out, acc = [], 0
+    for v in _as_arr(ev, x).flat():
+        acc = ev.binop(ast.Add(), acc, v)
+        out.append(acc)
+    return Arr(out)
+
+
+def _np_diag(ev, x, k=0):
+    a = _as_arr(ev, x)
+    if num_norm(k) != 0:
+        raise Undecided("np.diag off the main diagonal")
+    if len(a.shape) == 2:
+        return Arr([a.data[i][i] for i in range(min(a.shape))])
+    n = len(a.data)
+    return Arr([[a.data[i] if i == j else 0 for j in range(n)] for i in range(n)])
+
+
+def _np_mean(ev, x, axis=None, **kw):
+    return _reduce_axis(ev, x, axis, lambda items: ev.binop(ast.Div(), _b_sum(items), len(items)))
 
 
 def _zeta(ev, n):
@@ -2254,7 +2868,190 @@ def _allclose(ev, a, b, **kw):
     return bool(r)
 
 
+def _it(x):
+    return list(_DUMMY.iterate(x))
+
+
+def _partial(ev, f, *a, **k):
+    return _NativeFn(lambda *a2, **k2: ev.call(f, list(a) + list(a2), {**k, **k2}))
+
+
+def _reduce(ev, f, it, *init):
+    items = _it(it)
+    if init:
+        acc = init[0]
+    elif items:
+        acc, items = items[0], items[1:]
+    else:
+        raise Raised("TypeError", "reduce() of empty iterable with no initial value")
+    for x in items:
+        acc = ev.call(f, [acc, x], {})
+    return acc
+
+
+def _namedtuple(ev, typename, field_names, **kw):
+    names = field_names.replace(",", " ").split() if isinstance(field_names, str) else [str(n) for n in _it(field_names)]
+    defaults = list(_it(kw.get("defaults") or []))
+
+    def make(*a, **k):
+        vals = dict(zip(names, a))
+        for kk, vv in k.items():
+            if kk not in names or kk in vals:
+                raise Raised("TypeError", f"{typename}() got an unexpected or repeated argument '{kk}'")
+            vals[kk] = vv
+        for n, d in zip(names[len(names) - len(defaults):], defaults):
+            vals.setdefault(n, d)
+        missing = [n for n in names if n not in vals]
+        if missing:
+            raise Raised("TypeError", f"{typename}() missing arguments {missing}")
+        o = record(typename, **{n: vals[n] for n in names})
+        o.attrs["__strict__"] = True
+        o.store["__list__"] = [vals[n] for n in names]
+        o.attrs["_fields"] = tuple(names)
+        o.attrs["_asdict"] = _NativeFn(lambda: {n: o.attrs[n] for n in names})
+        o.attrs["_replace"] = _NativeFn(lambda **kk: make(**{**{n: o.attrs[n] for n in names}, **kk}))
+        return o
+
+    return _NativeFn(make)
+
+
+def _dc_field(ev, **kw):
+    return record("dataclass_field", **kw)
+
+
+def _dc_replace(ev, obj, **changes):
+    if not (isinstance(obj, ObjVal) and obj.cinfo is not None):
+        raise Undecided("dataclasses.replace on a non-dataclass value")
+    names = [f[0] for f in ev._fields(obj.cinfo)]
+    return ev.instantiate(ClassVal(ev, obj.cinfo), [], {**{n: obj.attrs[n] for n in names}, **changes})
+
+
+def _dc_asdict(ev, obj):
+    return {f[0]: obj.attrs[f[0]] for f in ev._fields(obj.cinfo)}
+
+
+def _math_int(fn):
+    def f(ev, v):
+        v = num_norm(v)
+        if isinstance(v, Rat):
+            raise Undecided(f"math.{fn.__name__} of a symbol")
+        return fn(v)
+
+    return f
+
+
+def _accumulate(ev, it, func=None, initial=None):
+    out = []
+    items = _it(it)
+    if initial is not None:
+        items = [initial] + items
+    for i, x in enumerate(items):
+        out.append(x if i == 0 else (ev.call(func, [out[-1], x], {}) if func is not None else ev.binop(ast.Add(), out[-1], x)))
+    return out
+
+
+def _defaultdict(ev, factory=None, *a, **k):
+    raise Undecided("collections.defaultdict (missing-key semantics not modelled)")
+
+
+import itertools as _itertools
+import math as _math
+import operator as _operator
+
+_OPS = {"add": ast.Add, "sub": ast.Sub, "mul": ast.Mult, "truediv": ast.Div, "pow": ast.Pow, "mod": ast.Mod, "floordiv": ast.FloorDiv, "matmul": ast.MatMult}
+_CMPS = {"eq": ast.Eq, "ne": ast.NotEq, "lt": ast.Lt, "le": ast.LtE, "gt": ast.Gt, "ge": ast.GtE}
+
 _EXT_CALLS = {
+    **{f"operator.{k}": (lambda ev, a, b, _o=o: ev.binop(_o(), a, b)) for k, o in _OPS.items()},
+    **{f"operator.{k}": (lambda ev, a, b, _o=o: ev.compare(_o(), a, b, None)) for k, o in _CMPS.items()},
+    "operator.neg": lambda ev, a: ev.binop(ast.Sub(), 0, a),
+    "operator.not_": lambda ev, a: not ev.truth(a),
+    "operator.itemgetter": lambda ev, *ks: _NativeFn(lambda o: ev.subscript(o, ks[0]) if len(ks) == 1 else tuple(ev.subscript(o, k) for k in ks)),
+    "operator.attrgetter": lambda ev, *ns: _NativeFn(lambda o: ev.getattr(o, ns[0], None) if len(ns) == 1 else tuple(ev.getattr(o, n, None) for n in ns)),
+    "operator.getitem": lambda ev, o, k: ev.subscript(o, k),
+    "functools.partial": _partial,
+    "functools.reduce": _reduce,
+    "functools.lru_cache": lambda ev, *a, **k: (a[0] if a and isinstance(a[0], FuncVal) else _NativeFn(lambda f: f)),
+    "functools.cache": lambda ev, f: f,
+    "functools.wraps": lambda ev, w: _NativeFn(lambda f: f),
+    "itertools.product": lambda ev, *its, repeat=1: [tuple(t) for t in _itertools.product(*[_it(i) for i in its], repeat=repeat)],
+    "itertools.chain": lambda ev, *its: [x for i in its for x in _it(i)],
+    "itertools.chain.from_iterable": lambda ev, its: [x for i in _it(its) for x in _it(i)],
+    "itertools.combinations": lambda ev, it, r: [tuple(t) for t in _itertools.combinations(_it(it), r)],
+    "itertools.combinations_with_replacement": lambda ev, it, r: [tuple(t) for t in _itertools.combinations_with_replacement(_it(it), r)],
+    "itertools.permutations": lambda ev, it, r=None: [tuple(t) for t in _itertools.permutations(_it(it), r)],
+    "itertools.accumulate": _accumulate,
+    "itertools.repeat": lambda ev, v, n=None: [v] * n if n is not None else _raise_undecided("unbounded itertools.repeat"),
+    "itertools.islice": lambda ev, it, *a: list(_itertools.islice(_it(it), *a)),
+    "itertools.zip_longest": lambda ev, *its, fillvalue=None: [tuple(t) for t in _itertools.zip_longest(*[_it(i) for i in its], fillvalue=fillvalue)],
+    "itertools.starmap": lambda ev, f, it: [ev.call(f, list(a), {}) for a in _it(it)],
+    "itertools.groupby": lambda ev, *a, **k: _raise_undecided("itertools.groupby"),
+    "collections.namedtuple": _namedtuple,
+    "collections.OrderedDict": lambda ev, *a, **k: dict(*[(x.store if isinstance(x, ObjVal) else x) for x in a], **k),
+    "collections.defaultdict": _defaultdict,
+    "collections.Counter": lambda ev, it=(): {k: _it(it).count(k) for k in dict.fromkeys(_it(it))},
+    "dataclasses.field": _dc_field,
+    "dataclasses.replace": _dc_replace,
+    "dataclasses.asdict": _dc_asdict,
+    "dataclasses.dataclass": lambda ev, *a, **k: (a[0] if a else _NativeFn(lambda c: c)),
+    "enum.auto": lambda ev: OpaqueObj("enum.auto"),
+    "math.floor": _math_int(_math.floor),
+    "math.ceil": _math_int(_math.ceil),
+    "math.trunc": _math_int(_math.trunc),
+    "math.factorial": _math_int(_math.factorial),
+    "math.comb": lambda ev, n, k: _math.comb(num_norm(n), num_norm(k)),
+    "math.isfinite": lambda ev, v: not is_inf(num_norm(v)),
+    "math.isinf": lambda ev, v: is_inf(num_norm(v)),
+    "math.isnan": lambda ev, v: False,
+    "math.fabs": lambda ev, v: _b_abs(v),
+    "math.pow": lambda ev, a, b: ev.binop(ast.Pow(), a, b),
+    "math.exp": _np_elementwise(_f_exp),
+    "math.prod": lambda ev, it, start=1: _reduce(ev, _NativeFn(lambda a, b: ev.binop(ast.Mult(), a, b)), it, start),
+    "numpy.concatenate": _np_concat,
+    "numpy.hstack": lambda ev, seq: _np_concat(ev, seq, axis=0) if all(len(_as_arr(ev, x).shape) == 1 for x in ev.iterate(seq)) else _np_concat(ev, seq, axis=1),
+    "numpy.vstack": lambda ev, seq: _np_stack(ev, seq) if all(len(_as_arr(ev, x).shape) == 1 for x in ev.iterate(seq)) else _np_concat(ev, seq, axis=0),
+    "numpy.stack": _np_stack,
+    "numpy.append": lambda ev, a, v, **k: _np_concat(ev, [a, v if _as_arr(ev, v) is not None else [v]]),
+    "numpy.outer": _np_outer,
+    "numpy.dot": lambda ev, a, b: ev.binop(ast.MatMult(), _as_arr(ev, a), _as_arr(ev, b)),
+    "numpy.matmul": lambda ev, a, b: ev.binop(ast.MatMult(), _as_arr(ev, a), _as_arr(ev, b)),
+    "numpy.einsum": _np_einsum,
+    "numpy.where": _np_where,
+    "numpy.linspace": _np_linspace,
+    "numpy.arange": _np_arange,
+    "numpy.ones": _np_shape_fill(1),
+    "numpy.empty": _np_shape_fill(0),
+    "numpy.ones_like": lambda ev, x, **k: x._map(lambda _: 1) if isinstance(x, Arr) else 1,
+    "numpy.full_like": lambda ev, x, v, **k: x._map(lambda _: v) if isinstance(x, Arr) else v,
+    "numpy.empty_like": lambda ev, x, **k: x._map(lambda _: 0) if isinstance(x, Arr) else 0,
+    "numpy.copy": lambda ev, x, **k: _deepcopy(ev, x),
+    "numpy.transpose": lambda ev, x, *a: _as_arr(ev, x).T if not a else _raise_undecided("transpose with axes"),
+    "numpy.prod": lambda ev, x, axis=None, **k: _reduce_axis(ev, x, axis, _prod_list(ev)),
+    "numpy.max": lambda ev, x, axis=None, **k: _reduce_axis(ev, x, axis, _b_minmax(max)),
+    "numpy.amax": lambda ev, x, axis=None, **k: _reduce_axis(ev, x, axis, _b_minmax(max)),
+    "numpy.min": lambda ev, x, axis=None, **k: _reduce_axis(ev, x, axis, _b_minmax(min)),
+    "numpy.amin": lambda ev, x, axis=None, **k: _reduce_axis(ev, x, axis, _b_minmax(min)),
+    "numpy.maximum": _np_minmax2("max"),
+    "numpy.minimum": _np_minmax2("min"),
+    "numpy.clip": lambda ev, x, lo, hi: _np_minmax2("min")(ev, _np_minmax2("max")(ev, x, lo), hi),
+    "numpy.cumsum": _np_cumsum,
+    "numpy.diag": _np_diag,
+    "numpy.unique": _np_unique,
+    "numpy.atleast_1d": lambda ev, x: _as_arr(ev, x) if _as_arr(ev, x) is not None else Arr([x]),
+    "numpy.square": lambda ev, x: ev.binop(ast.Mult(), x, x),
+    "numpy.log10": lambda ev, x: ev.binop(ast.Div(), _np_elementwise(_f_log)(ev, x), num_norm(A.fn_log(A.Rat.const(10)))),
+    "numpy.log2": lambda ev, x: ev.binop(ast.Div(), _np_elementwise(_f_log)(ev, x), num_norm(A.fn_log(A.Rat.const(2)))),
+    "numpy.fabs": _np_elementwise(_b_abs),
+    "numpy.absolute": _np_elementwise(_b_abs),
+    "numpy.float64": lambda ev, x=0: x,
+    "numpy.float_": lambda ev, x=0: x,
+    "numpy.int64": lambda ev, x=0: _b_int(x),
+    "numpy.ndim": lambda ev, x: len(_as_arr(ev, x).shape) if _as_arr(ev, x) is not None else 0,
+    "numpy.shape": lambda ev, x: _as_arr(ev, x).shape if _as_arr(ev, x) is not None else (),
+    "numpy.size": lambda ev, x: len(_as_arr(ev, x).flat()) if _as_arr(ev, x) is not None else 1,
+    "numpy.isscalar": lambda ev, x: _as_arr(ev, x) is None,
+    "numpy.all": lambda ev, x, **k: all(ev.truth(v) for v in (_as_arr(ev, x).flat() if _as_arr(ev, x) is not None else [x])),
+    "numpy.any": lambda ev, x, **k: any(ev.truth(v) for v in (_as_arr(ev, x).flat() if _as_arr(ev, x) is not None else [x])),
     "numpy.isclose": _isclose,
     "math.isclose": _isclose,
     "numpy.allclose": _allclose,
@@ -2272,11 +3069,11 @@ _EXT_CALLS = {
     "numpy.zeros_like": lambda ev, x, **k: x._map(lambda _: 0) if isinstance(x, Arr) else 0,
     "numpy.sum": _np_sum,
     "numpy.mean": _np_mean,
-    "numpy.full": lambda ev, n, v, **k: Arr([v] * int(n)),
+    "numpy.full": _np_shape_fill(None),
     "numpy.eye": lambda ev, n, **k: Arr([[1 if i == j else 0 for j in range(int(n))] for i in range(int(n))]),
     "numpy.isinf": lambda ev, x: is_inf(x),
-    "numpy.isfinite": lambda ev, x: Mask(x, False),
-    "numpy.isnan": lambda ev, x: Mask(x, True),
+    "numpy.isfinite": lambda ev, x: Mask(x, False) if isinstance(x, Arr) else (not is_inf(num_norm(x))),
+    "numpy.isnan": lambda ev, x: Mask(x, True) if isinstance(x, Arr) else False,
     "scipy.special.zeta": _zeta,
     "scipy.special.spence": _spence,
     "scipy.special.binom": _binom,
